@@ -241,6 +241,18 @@ def check(col: Collector, tier: str):
     from sa.props._tr import import_obligations
     import_obligations(col, "C18.R9", "c03", lambda o: o.detail in ("entry=(name, variable typed by get_ttree_type(value))", "branch-binds-name-k-to-variable-k"),
                        "the column name given by the query must reach Branch() character for character; only the C++ variable name is sanitised")
+    # ------------------------------------------------------------ R11 constants as operands / as bank names are not re-written
+    from sa.props._tr import check_compare_operands_verbatim
+    check_compare_operands_verbatim(col, "C18.R11", m)
+    gcf = repo.method("event_collection_coder", "get_collection")
+    cprm = gcf.node.args.args[2].arg if len(gcf.node.args.args) > 2 else "call_node"
+    rewrites = [src(n)[:60] for n in walk_no_nested(gcf.node)
+                if (isinstance(n, (ast.Assign, ast.AugAssign)) and any(src(t).startswith(f"{cprm}.args") for t in (n.targets if isinstance(n, ast.Assign) else [n.target])))
+                or (isinstance(n, ast.Call) and src(n.func) in ("ast.Constant", "ast.Str", "ast.Call"))
+                or (isinstance(n, ast.Call) and isinstance(n.func, ast.Attribute) and n.func.attr in ("append", "insert", "extend", "pop") and src(n.func.value) == f"{cprm}.args")]
+    col.add("C18.R11", gcf.short, "bank-name-argument-left-as-the-query-wrote-it", not rewrites,
+            f"the collection call keeps the query's own argument node (the string constant is substituted later from it); get_collection builds or "
+            f"replaces arguments: {rewrites} - an empty or unusual name is then replaced by something else", gcf.loc)
     # ------------------------------------------------------------ R10 the bytes on disk: strict UTF-8 (agreement with the escaper's pass-through)
     from sa.props._tr import check_copy_template
     col.floor("C18.R10", 1)
@@ -391,6 +403,15 @@ def check_substitution(col: Collector, repo: Repo, rule: str):
     em = repo.method("arbitrary_statement", "emit")
     cuts = [c for c in string_surgery(em.node) if not re_fullmatch_strip(c)]
     adds = [c for c in walk_no_nested(em.node) if isinstance(c, ast.Call) and call_name(c) == "add_line"]
+    # ... and the `;` is added exactly when the line does not already end in one (a line ending in `}` is still a statement when it is a
+    # brace initialiser or a lambda)
+    pme = parent_map(em.node)
+    semis = [n for n in walk_no_nested(em.node) if (isinstance(n, ast.AugAssign) and const_str(n.value) == ";")
+             or (isinstance(n, ast.Assign) and isinstance(n.value, ast.BinOp) and const_str(n.value.right) == ";")]
+    sg = [(src(t), tr_) for n in semis for t, tr_ in guards(em.node, n, pme)]
+    ok_semi = len(semis) == 1 and len(sg) == 1 and (not sg[0][1]) and _re.fullmatch(r"\w+\.endswith\((';'|\";\")\)", sg[0][0]) is not None
+    col.add(rule, em.short, "terminator-added-exactly-when-missing", ok_semi,
+            f"`;` must be appended under `not <line>.endswith(';')` and nothing else (found {sg})", em.loc)
     col.add(rule, em.short, "injected-line-emitted-whole", not cuts and len(adds) == 1,
             f"the line carries the actual arguments already pasted in (string constants included): cutting or splitting it on C++ syntax such as `//` "
             f"cannot tell code from the inside of a string literal (found {cuts}; add_line calls: {len(adds)})", em.loc)
